@@ -2,7 +2,7 @@ from .core import BASE_TRUST
 
 META = {
     "category": "proof",
-    "text": "(the comparison core of lib/value/comparison.go is TRANSLATED into Lean on every run by extract/cmpfacts — compareInteger, compareFloat, the datetime / boolean / string rungs and the ladder order of CompareCombinedly, the six operators as functions of its result, the dispatch of Compare, Equivalent, the order of Identical — and proved equal to the model: gen_compareInteger_eq, gen_compareFloat_eq, gen_rung*_eq, cmp_eq_gen, gen_ops_eq_model, gen_dispatch, gen_equivalent_shape, gen_identical_ladder) Lean 4 theorems over a model of the comparison ladder, ternary logic, BETWEEN/IN/ANY/ALL/IS/CASE and arithmetic, for all coercion profiles and all lists (incl. the empty set a sub-query can produce: any_empty / all_empty), exactness of the float image of integers and of float +, -, * on integers below 2^53 (float_int_*_agree), casts; model tied to /repo by a differential correspondence run (direct library calls and SELECT text) on every run",
+    "text": "(texts read as numbers are INSIDE the model since Model/ParseFloat.lean: option.TrimSpace on arbitrary bytes incl. the Unicode White_Space runes, strconv.ParseInt, strconv.ParseFloat with special values, decimal and hexadecimal mantissas, the exponent clamp, underscoreOK, correct rounding to binary64, overflow = NULL; theorems int_text_float_agrees — every text ParseInt accepts as i is accepted by ParseFloat as float64(i), so the integer and the float rung of the ladder agree —, text_profile_int_float, cast_integer_text, cast_float_text; tied by stream op c06.sflt: ToIntegerStrictly / ToFloat / ToInteger / ToBoolean / Ternary of 8000+ spellings per run incl. rounding boundaries, denormals, overflow, hex floats, underscores, Unicode spaces, mutations) (the comparison core of lib/value/comparison.go is TRANSLATED into Lean on every run by extract/cmpfacts — compareInteger, compareFloat, the datetime / boolean / string rungs and the ladder order of CompareCombinedly, the six operators as functions of its result, the dispatch of Compare, Equivalent, the order of Identical — and proved equal to the model: gen_compareInteger_eq, gen_compareFloat_eq, gen_rung*_eq, cmp_eq_gen, gen_ops_eq_model, gen_dispatch, gen_equivalent_shape, gen_identical_ladder) Lean 4 theorems over a model of the comparison ladder, ternary logic, BETWEEN/IN/ANY/ALL/IS/CASE and arithmetic, for all coercion profiles and all lists (incl. the empty set a sub-query can produce: any_empty / all_empty), exactness of the float image of integers and of float +, -, * on integers below 2^53 (float_int_*_agree), casts; model tied to /repo by a differential correspondence run (direct library calls and SELECT text) on every run",
     "design_ref": "DESIGN.md section 5, C06",
     "note": "trusted: Lean kernel (axioms propext, Classical.choice, Quot.sound only), harness + driver, Go stdlib conversions (enter as profiles), IEEE-754 hardware (FloatOps parameter)",
     "technique": "Lean 4 machine-checked proof over a hand-written model + differential correspondence with the Go implementation",
